@@ -29,7 +29,8 @@ def keyLt (a b : TKey) : Bool := a.1 < b.1 || (a.1 == b.1 && a.2 < b.2)
 /-- engine "dec": see harness/cmd/harness/eng_dec.go -/
 def engDec (s : DState) (a : List String) : DState × String :=
   match a with
-  | ["new", m] =>
+  | ["new", m] | ["new", m, "udp"] | ["new", m, "tcp"] =>
+    -- the transport the collector is configured for changes template LIFETIME (C10), not decoding
     match parseMode m with
     | some mode => ({ s with coll := {}, mode := mode }, "ok")
     | none => (s, "bad-op")
@@ -60,7 +61,7 @@ def chkDec (useSpec : Bool) (s : DState) (a : List String) : DState × String :=
   let (op, obs) := splitBar a
   let impl := " ".intercalate obs
   match op with
-  | ["new", m] =>
+  | ["new", m] | ["new", m, "udp"] | ["new", m, "tcp"] =>
     match parseMode m with
     | some mode => ({ s with spec := {}, specMode := mode }, "holds")
     | none => (s, "bad-op")
